@@ -190,7 +190,7 @@ impl Response {
         {
             let mut body: Vec<u8> = Vec::new();
 
-            while let Some(chunk) = parse_chunk(&mut reader) {
+            while let Some(chunk) = parse_chunk(&mut reader)? {
                 body.extend(chunk);
             }
 
@@ -265,18 +265,28 @@ impl From<Response> for Vec<u8> {
 }
 
 /// Parses a chunk using the chunked transfer encoding.
-fn parse_chunk<T>(stream: &mut BufReader<T>) -> Option<Vec<u8>>
+fn parse_chunk<T>(stream: &mut BufReader<T>) -> Result<Option<Vec<u8>>, ResponseError>
 where
     T: Read,
 {
+    // A chunk that is malformed or cut short is an error, not the end of the body.
     let mut length_line_buf: Vec<u8> = Vec::new();
-    stream.read_until(0xA, &mut length_line_buf).ok()?;
-    let length: usize =
-        usize::from_str_radix(std::str::from_utf8(&length_line_buf).ok()?.trim_end(), 16).ok()?;
+    stream
+        .read_until(0xA, &mut length_line_buf)
+        .map_err(|_| ResponseError::Stream)?;
+    let length_line =
+        std::str::from_utf8(&length_line_buf).map_err(|_| ResponseError::Response)?;
+    safe_assert(length_line.ends_with('\n'))?;
+    let length: usize = usize::from_str_radix(length_line.trim_end(), 16)
+        .map_err(|_| ResponseError::Response)?;
+
+    let mut crlf = [0u8; 2];
 
     if length == 0 {
-        stream.read_exact(&mut [0u8, 0]).ok()?;
-        None
+        stream
+            .read_exact(&mut crlf)
+            .map_err(|_| ResponseError::Stream)?;
+        Ok(None)
     } else {
         // As above, do not trust the claimed chunk size for the allocation.
         let mut content_buf: Vec<u8> = Vec::new();
@@ -284,12 +294,12 @@ where
             .by_ref()
             .take(length as u64)
             .read_to_end(&mut content_buf)
-            .ok()?;
-        if content_buf.len() != length {
-            return None;
-        }
-        stream.read_exact(&mut [0u8, 0]).ok()?;
-        Some(content_buf)
+            .map_err(|_| ResponseError::Stream)?;
+        safe_assert(content_buf.len() == length).map_err(|_| ResponseError::Stream)?;
+        stream
+            .read_exact(&mut crlf)
+            .map_err(|_| ResponseError::Stream)?;
+        Ok(Some(content_buf))
     }
 }
 
